@@ -42,7 +42,7 @@ def _is_evolvable_network(net: Any) -> bool:
     """Structural check for the EvolvableNetwork protocol. Since Python 3.12 a
     ``runtime_checkable`` protocol looks its members up statically, which misses the
     ``encoder`` / ``head_net`` submodules that ``nn.Module`` keeps in ``_modules``."""
-    return all(
+    return isinstance(net, EvolvableNetwork) or all(
         hasattr(net, attr)
         for attr in (
             "encoder",
